@@ -25,7 +25,7 @@ PROPS = {
         ],
     },
     "C04": {
-        "units": ["U1", "U4", "U3", "U12"],
+        "units": ["U1", "U4", "U3", "U12", "U13"],
         "kani": ["U2b"],
         "level": "proof",
         "witness": [
